@@ -68,7 +68,7 @@ def mutual_dependency(nets):
 
 def all_cases(ctx):
     from cgv.props.C03 import x_cases
-    cs = [textbook()] + F.f_shape() + F.f_unit(5) + x_cases() + F.f_rand(ctx.seed, 30 if ctx.quick else 300)
+    cs = [textbook()] + F.f_shape() + F.f_unit(5) + x_cases() + F.reordered([textbook()] + F.f_shape()) + F.f_rand(ctx.seed, 30 if ctx.quick else 300)
     if not ctx.quick:
         import random
         cs += [(("rand24", ctx.seed, i), F.rand_dag(random.Random(f"c17-24-{ctx.seed}-{i}"), n_in=5, n_gates=24, max_arity=3, name=f"r24_{i}")) for i in range(40)]
